@@ -115,6 +115,33 @@ def main():
             cr.note("libzstd not loadable through ctypes: zstd streams not covered")
         arcs = archives(cr.tier)
         bss = (4096,) if quick else (4096, 131072, 1048576)
+        # format detection: uncompressed archives (every dialect that carries a magic) whose first bytes - the first member's name - look like
+        # a compressor magic; the plain archive and each wrapped form must give the same image
+        n_probe = 0
+        E = tarcases.E
+        MAG = [b"BZh9-notes.txt", b"BZhello", b"\x1f\x8b\x08.dat", b"\xfd7zXZ", b"(\xb5/\xfdx.bin", b"\x5d\x00\x00.lzma", b"ustar"]
+        for dialect in ("ustar", "gnu", "pax"):
+            for mname in MAG:
+                data = tarmk.archive([E(mname, "file", content=b"payload of the oddly named member\n" * 9), E(b"zz", "file", content=b"second")], dialect)
+                rc0, sh0, err0, crashed0, _ = run_t2s(data, 4096)
+                res = {}
+                for codec in cods:
+                    res[codec] = run_t2s(codecs.compress(codec, data), 4096)
+                n_probe += 1 + len(cods)
+                files = {"input.bin": data, "case.json": json.dumps(dict(archive="magic-name", what="%s first member %r" % (dialect, mname), bs=4096, chunk=None))}
+                rs = "python3 /verif/checks/C15.py --replay \"$PWD\""
+                if crashed0 or any(v[3] for v in res.values()):
+                    cr.violation("C15|crash|magic-name", "%s archive, first member %r: tar2sqfs crashed" % (dialect, mname), files=files, replay_sh=rs)
+                    continue
+                good = {c: v for c, v in res.items() if v[0] == 0}
+                if rc0 != 0 and good:
+                    cr.violation("C15|plain-rejected-wrapped-accepted|%s" % dialect, "%s archive whose first member is named %r: rejected when it arrives uncompressed (%s) but accepted when wrapped in %s" % (
+                        dialect, mname, err0.decode("latin1")[-200:].strip(), sorted(good)), files=files, replay_sh=rs)
+                    continue
+                bad = [c for c, v in res.items() if (v[0] == 0) != (rc0 == 0) or (v[0] == 0 and v[1] != sh0)]
+                if bad:
+                    cr.violation("C15|different-image|magic-name|%s" % dialect, "%s archive, first member %r: plain rc=%d, wrapped in %s gives another result" % (dialect, mname, rc0, bad), files=files, replay_sh=rs)
+        cr.coverage["magic_name_runs"] = n_probe
         for name, data in arcs:
             shas = {}
             for bs in bss:
